@@ -25,11 +25,11 @@ def run(tier, replay=None):
 
     mism, smism = None, None
     if ck.coq_ok:
-        hdr = "From Errors Require Import Model Run.\nOpen Scope string_scope."
+        hdr = "From Coq Require Import NArith.\nFrom Errors Require Import Model Run.\nOpen Scope string_scope."
         lines = open(os.path.join(ck.work, "cases_merge.txt")).read().splitlines()
-        mism = ck.coq_eval_cases(lines, hdr, "nat * tree * obs", "mismatches", tag="merge")
+        mism = ck.coq_eval_cases(lines, hdr, "N * tree * obs", "mismatches", tag="merge")
         slines = open(os.path.join(ck.work, "cases_status.txt")).read().splitlines()
-        smism = ck.coq_eval_cases(slines, hdr, "nat * val * nat * grpc_code * core", "status_mismatches", shards=2, tag="status")
+        smism = ck.coq_eval_cases(slines, hdr, "N * val * nat * grpc_code * core", "status_mismatches", shards=2, tag="status")
     if not ck.coq_ok:
         if not ck.violations:
             ck.unproved("the Errors development no longer checks: " + ck.coq_error,
